@@ -453,6 +453,18 @@ func c01(c *Ctx) {
 
 // firstMatchLoop: the loop acts on at most the first element satisfying a predicate (continue … ; act; break/return).
 func (c *Ctx) firstMatchLoop(fi *load.FuncInfo, rs *ast.RangeStmt) bool {
+	// the same loop with the test the other way round: the whole body is `if <match> { …; break|return }`
+	if len(rs.Body.List) == 1 {
+		if ifs, ok := rs.Body.List[0].(*ast.IfStmt); ok && ifs.Else == nil && len(ifs.Body.List) >= 1 {
+			switch x := ifs.Body.List[len(ifs.Body.List)-1].(type) {
+			case *ast.BranchStmt:
+				return x.Tok == token.BREAK
+			case *ast.ReturnStmt:
+				return true
+			}
+		}
+		return false
+	}
 	if len(rs.Body.List) < 2 {
 		return false
 	}
